@@ -30,6 +30,9 @@ CFG = dict(
         "the Go oracle harness/c10/oracle.go restates coq/Index/MVMap.v by hand (direct falsifier)",
     ],
     assumptions=[
+        "not exercised: Compact concurrent with flushes (Compact's fullDump reads through a snapshot that is not registered "
+        "in t.snapshots, so a concurrent synced flush with cleanup could discard nodes the dump still reads; the harness "
+        "runs Compact only between operations)",
         "theorem premises: MaxNodeSize >= requiredNodeSize(MaxKeySize, MaxValueSize) (cfg_ok, enforced by Options.Validate); "
         "keys handed to BulkInsert are byte strings (ops_bytes_ok, always true of Go []byte) for the declarative reader "
         "spec; counts (history count, offsets) fit uint64",
